@@ -24,7 +24,8 @@ if __name__ == '__main__':
 
 from vf import tlc                                                              # noqa: E402
 from vf.common import REPO, VERIF, MachineryError, Timer, ensure_repo_on_path, seed   # noqa: E402
-from vf.drivers.persistent_api import _cfg as _pcfg, _os_alive_pid, _tla_seq, run_jobs   # noqa: E402
+from vf.drivers.persistent_api import (_cfg as _pcfg, _os_alive_pid, _proc_start, _tla_seq, parent_watchdog,   # noqa: E402
+                                       run_jobs)
 from vf.report import Evidence, Violation, finish                               # noqa: E402
 
 CHECKS = {
@@ -71,24 +72,35 @@ class Session:
         self.server = None
         self.addr = None
         self.nflag = 0
+        self.tmpdir = '/tmp'
 
     def need_server(self):
-        if self.server is None:
-            from pyworkers.remote_server import spawn_server
-            self.server = spawn_server(('127.0.0.1', 0))
-            if not self.server.is_alive():
-                raise MachineryError('cannot start a local remote server: %r' % (self.server.error,))
-            self.addr = self.server.addr
+        """The server is itself a Worker (RemoteServerProcess): it must not live in this process, or it would be
+        part of the registry under test (and autoclose would rightly close it).  A helper process owns it."""
+        if self.server is None or self.server.poll() is not None:
+            import subprocess
+            code = ('import sys\nfrom pyworkers.remote_server import spawn_server\n'
+                    'if __name__ == "__main__":\n s = spawn_server(("127.0.0.1", 0))\n print(s.addr[1] if s.is_alive() else -1, flush=True)\n'
+                    ' sys.stdin.read()\n s.terminate(timeout=2, force=True)\n')
+            path = os.path.join(self.tmpdir, 'server_helper_%d.py' % os.getpid())
+            with open(path, 'w') as f:
+                f.write(code)
+            self.server = subprocess.Popen([sys.executable, path], stdin=subprocess.PIPE, stdout=subprocess.PIPE, env=dict(os.environ))
+            line = self.server.stdout.readline().strip()
+            if not line or int(line) < 0:
+                raise MachineryError('cannot start a local remote server (helper said %r)' % line)
+            self.addr = ('127.0.0.1', int(line))
 
     def close(self):
         if self.server is not None:
             try:
-                spid = self.server.pid
-                self.server.terminate(timeout=2, force=True)
-                if _os_alive_pid(spid):
-                    os.kill(spid, signal.SIGKILL)
+                self.server.stdin.close()
+                self.server.wait(6)
             except Exception:  # noqa
-                pass
+                try:
+                    self.server.kill()
+                except OSError:
+                    pass
 
     def retained(self):
         gc.collect()
@@ -149,7 +161,7 @@ class RegReplay:
         if run:
             self.live.add(w)
             if kind != 'thread':
-                self.pids.append(obj.pid)
+                self.pids.append((obj.pid, _proc_start(obj.pid)))
 
     def forget_if_unused(self, w, step):
         """The program drops its reference to a dead worker it will not restart."""
@@ -184,10 +196,32 @@ class RegReplay:
         self.calls.append({'t': t, 'y': y, 'lb': lb, 'la': la, 'retained': self.ses.retained(), 'died': 0})
 
     def auto(self, step):
-        with self.ses.autoclose():
-            pass
-        after = [w for w in sorted(self.live) if self.ws[w].is_alive()]
-        self.autos.append({'after': after})
+        raised = 'none'
+        try:
+            with self.ses.autoclose():
+                pass
+        except Exception as e:  # noqa - leaving the block raised: an observation
+            raised = type(e).__name__
+            # soft diagnosis for the signature: a dead thread worker still registered whose thread id was re-used by this thread
+            from pyworkers.utils import gettid
+            try:
+                stale = [c for c in getattr(self.ses.Worker, '_active_children', []) if getattr(c, '_tid', None) == gettid()
+                         and not any(c is o for o in self.ws.values() if o is not None and c is o and False)]
+                if stale and isinstance(e, ValueError):
+                    raised += ':stale-dead-thread-worker-with-reused-tid'
+            except Exception:  # noqa
+                pass
+            self.notes.append('autoclose raised %r' % (e,))
+        # "left behind" = still alive once the terminations requested by the block have had time to complete
+        # (autoclose gives each child 0.1 s + 0.1 s; under load a dying thread can outlive that by a moment)
+        after = []
+        for w in sorted(self.live):
+            t0 = time.time()
+            while self.ws[w].is_alive() and time.time() - t0 < 3.0:
+                time.sleep(0.002)
+            if self.ws[w].is_alive():
+                after.append(w)
+        self.autos.append({'after': after, 'raised': raised})
         for w in sorted(self.live):
             if w not in after:
                 self.live.discard(w)
@@ -207,7 +241,7 @@ class RegReplay:
                     self.live.add(w)
                     self.was_restarted.add(w)
                     if self.job['kinds'].get(str(w), 'thread') != 'thread':
-                        self.pids.append(self.ws[w].pid)
+                        self.pids.append((self.ws[w].pid, _proc_start(self.ws[w].pid)))
                 elif op == 'ac':
                     self.ac(w)
                 elif op == 'auto':
@@ -234,8 +268,8 @@ class RegReplay:
                     obj.terminate()
             except Exception as e:  # noqa
                 self.notes.append('cleanup of %d: %r' % (w, e))
-        for pid in self.pids:
-            if pid != os.getpid() and _os_alive_pid(pid):
+        for pid, start in self.pids:
+            if pid != os.getpid() and start is not None and _proc_start(pid) == start and _os_alive_pid(pid):
                 try:
                     os.kill(pid, signal.SIGKILL)
                 except OSError:
@@ -270,6 +304,7 @@ def stress(job, ses):
     objs = {}
     calls = []
     stop = threading.Event()
+    foreign = {}
     INF = 10 ** 9
 
     def tick():
@@ -285,7 +320,7 @@ def stress(job, ses):
             with lk:
                 ids = []
                 for o in got:
-                    ids.append(next((w for w, x in objs.items() if x is o), 900))
+                    ids.append(next((w for w, x in objs.items() if x is o), None) or foreign.setdefault(id(o), 9000 + len(foreign)))
                 may = sorted(w for w, (a, b, c, d) in iv.items() if a < t1 and d > t0)
                 must = sorted(w for w, (a, b, c, d) in iv.items() if b < t0 and c > t1)
                 died = sum(1 for x in deaths if t0 < x < t1)
@@ -339,10 +374,12 @@ def stress(job, ses):
 
 
 def runner_main(jobfile, outfile):
+    parent_watchdog()
     with open(jobfile) as f:
         jobs = json.load(f)
     ses = Session()
     tmp = os.path.dirname(os.path.abspath(outfile))
+    ses.tmpdir = tmp
     results = []
     try:
         for j in jobs:
@@ -351,6 +388,9 @@ def runner_main(jobfile, outfile):
                 results.append(stress(j, ses))
             else:
                 results.append(RegReplay(j, ses, tmp).run())
+            if len(results) % 8 == 0:
+                with open(outfile + '.part', 'w') as f:
+                    json.dump(results, f)
     finally:
         ses.close()
     with open(outfile, 'w') as f:
@@ -411,6 +451,8 @@ def classify(rec, restarted):
     for a in rec['obs']['autos']:
         if a['after']:
             left = 'restarted' if set(a['after']) <= set(restarted) else 'live'
+            if a.get('raised', 'none') != 'none':
+                left += '(exit raised %s)' % a['raised']
     return extra, missing, dup, left
 
 
@@ -466,7 +508,7 @@ def run(prop, tier, replay=None):
         raise MachineryError('path dump failed: ' + rpaths.error)
     paths = [(_tla_seq(hs), _tla_seq(ys), rl_) for hs, ys, rl_ in rpaths.tags.get('PATH', [])]
     n_exh = len(paths)
-    cap = 6000 if quick else 40000
+    cap = 4000 if quick else 40000
     sel = paths if len(paths) <= cap else rng.sample(paths, cap)
     jobs, expect = [], {}
 
@@ -513,6 +555,8 @@ def run(prop, tier, replay=None):
         j = jb[rid]
         desc = 'history %s' % [s[:2] if s[0] != 'create' else s for s in j['h']][:14] if 'h' in j else 'two-caller stress run'
         first = next((c for c in res['rec']['obs']['calls'] if set(c['y']) != set(c['lb'])), None)
+        if first is not None:
+            first = {k: (v[:8] + ['... %d more' % (len(v) - 8)] if isinstance(v, list) and len(v) > 8 else v) for k, v in first.items()}
         violations.append(Violation('C19', sig, '%s fails: %s%s; first deviating call %s; autoclose left %s'
                                     % (','.join(sorted(clauses)), desc, ' ...' if len(j.get('h', [])) > 14 else '', first,
                                        [a['after'] for a in res['rec']['obs']['autos'] if a['after']][:1]), j))
